@@ -441,7 +441,7 @@ static int sleep_do_op(int idx, op_t* op) {
     while (!sl_flag[op->a & 7]) {
       vs_timer_tick(1);
       fiber_yield();
-      if (++n > 2000000) vs_violation("livelock", "fiber %d polled 2000000 times (10000 s of virtual time) for a sleeper that was never resumed", idx);
+      if (++n > 2000000 && !vs_long_stall_run()) vs_violation("livelock", "fiber %d polled 2000000 times (10000 s of virtual time) for a sleeper that was never resumed", idx);
     }
     return 1;
   }
